@@ -214,3 +214,52 @@ Theorem C06_connections_of_a_session_share_the_key : forall (conns : list conn) 
   nth_error keys i = nth_error keys j.
 Proof. exact connections_of_a_session_share_the_key. Qed.
 Print Assumptions C06_connections_of_a_session_share_the_key.
+
+(* ---------------------------------------------------------------------------------------------
+   The client side of session establishment: client.MakeSession (internal/client/connector.go),
+   Model/Connector.v.  The network is an input: per goroutine a script of attempt outcomes. *)
+From Cloak Require Import Model.Connector Proofs.Connector.
+Local Open Scope nat_scope.
+
+(* A goroutine whose attempts fail any number of times, in any way, and then succeed with key k ends with
+   exactly that key and hands over exactly ONE connection; it paused 3 s once per failure, dialled once per
+   attempt, and closed the transport of every failed handshake and of nothing else. *)
+Theorem C06_connector_one_connection_per_goroutine : forall pre direct b k rest,
+  forallb is_fail pre = true ->
+  let '(evs, r) := conn_loop direct b (pre ++ AOk k :: rest) in
+  r = Some k /\ count_ev is_deliver evs = 1 /\ count_ev is_sleep evs = length pre /\
+  count_ev is_dial evs = S (length pre) /\ count_ev is_close evs = length (filter is_hsfail pre).
+Proof. exact conn_loop_spec. Qed.
+Print Assumptions C06_connector_one_connection_per_goroutine.
+
+(* The browser signature a goroutine presents is the configured one or its fallback, nothing else; the
+   fallback (chrome -> firefox, direct transport only) is taken only after a failed handshake: while only
+   dials have failed, every attempt carries the configured signature. *)
+Theorem C06_connector_signatures : forall s direct b b',
+  In b' (creates (fst (conn_loop direct b s))) -> b' = b \/ b' = fallback direct b.
+Proof. intros s direct b b'. exact (conn_loop_signatures s direct b b'). Qed.
+Print Assumptions C06_connector_signatures.
+
+Theorem C06_connector_configured_signature_until_a_handshake_fails : forall pre direct b s,
+  forallb is_dialfail pre = true ->
+  firstn (length pre) (creates (fst (conn_loop direct b (pre ++ s)))) = repeat b (length pre).
+Proof. exact conn_loop_before_first_hsfail. Qed.
+Print Assumptions C06_connector_configured_signature_until_a_handshake_fails.
+
+(* MakeSession returns only when every goroutine has its connection; the session is given exactly one
+   connection per goroutine; and its key is one a successful handshake returned - whichever goroutine
+   finished last - so when the server gives every connection of the session the same key
+   (C06_same_session_same_key), the client's session is built from that key. *)
+Theorem C06_connector_session : forall direct b scripts order key n,
+  make_session direct b scripts order = Some (key, n) ->
+  n = length scripts /\
+  (forall s, In s scripts -> exists k, snd (conn_loop direct b s) = Some k) /\
+  (last order 0 < length scripts -> exists s, In s scripts /\ snd (conn_loop direct b s) = Some key).
+Proof. exact make_session_spec. Qed.
+Print Assumptions C06_connector_session.
+
+Theorem C06_connector_session_key_is_the_servers : forall direct b scripts order key n K,
+  make_session direct b scripts order = Some (key, n) -> last order 0 < length scripts ->
+  (forall s k, In s scripts -> snd (conn_loop direct b s) = Some k -> k = K) -> key = K.
+Proof. exact make_session_same_key. Qed.
+Print Assumptions C06_connector_session_key_is_the_servers.
